@@ -2127,7 +2127,12 @@ class MacroGen:
                "-- the bodies of the conversion macros and of `newtype!`, with the macro metavariables as parameters",
                "import Midi.Model.Conv", "namespace Midi.Gen.Macros", "open Midi", ""]
         nt_pat, nt_body = self.macros["newtype"]
-        m = {"name": "NAME__", "repr": "REPR__", "max": "MAX__", "outer": "OUTER__"}
+        # metavariable names are read from the macro pattern: `name = $n: ident, repr = $r: ty, max = $m: literal`
+        m = {}
+        for i in range(len(nt_pat) - 3):
+            if nt_pat[i][1] in ("name", "repr", "max") and nt_pat[i + 1][1] == "=" and nt_pat[i + 2][1] == "$":
+                m[nt_pat[i + 3][1]] = {"name": "NAME__", "repr": "REPR__", "max": "MAX__"}[nt_pat[i][1]]
+        if sorted(m.values()) != ["MAX__", "NAME__", "REPR__"]: raise TErr("newtype!: pattern shape")
         # is_valid
         ftoks = subst(self.find_fn(nt_body, "is_valid"), m)
         f = Parser(ftoks).fn()
@@ -2164,7 +2169,9 @@ class MacroGen:
         for name, (fk, ik, fname) in MACRO_KINDS.items():
             if name not in self.macros: raise TErr("macro %s not found" % name)
             pat, body = self.macros[name]
-            toks = subst(body, {"from": "FROM__", "into": "INTO__"})
+            params = [pat[i + 1][1] for i in range(len(pat) - 2) if pat[i][1] == "$" and pat[i + 2][1] == ":"]
+            if len(params) != 2: raise TErr("macro %s: expected two parameters" % name)
+            toks = subst(body, {params[0]: "FROM__", params[1]: "INTO__"})
             items = Parser(toks, keep_trait_impls={("From", "INTO__"), ("TryFrom", "INTO__")}).file()
             fns = [f for it in items if it["k"] == "impl" for f in it["fns"] if f["name"] == fname]
             if len(fns) != 1: raise TErr("macro %s: expected exactly one fn %s" % (name, fname))
